@@ -147,8 +147,15 @@ def audit(thm_modules, theorems, tag):
 
 # ----------------------------------------------------------------------------- Rust side
 
+def cargo_lock(name="cargo.lock"):
+    """one build at a time per target directory (a VERIF_REPO run has target directories of its own)"""
+    if not REPO_OVERRIDE:
+        return Lock(name)
+    return Lock(name[:-5] + "-" + hashlib.sha1(REPO_OVERRIDE.encode()).hexdigest()[:8] + ".lock")
+
+
 def cargo_build(packages):
-    with Lock("cargo.lock"):
+    with cargo_lock():
         lock = os.path.join(HARNESS, "Cargo.lock")
         if not os.path.exists(lock):
             import shutil; shutil.copy("/repo/Cargo.lock", lock)
